@@ -38,6 +38,9 @@ def run(ctx: Ctx):
     from .common import index_space_lints
 
     index_space_lints(ctx, "index-space", ['matrix/subtotals.py', 'stripe/insertion.py'], words=None)
+    from .common import generic_lints
+
+    generic_lints(ctx)
 
 
 def _bind(*names):
